@@ -411,36 +411,33 @@ func gbC10Alloc(c *engine.Ctx, p *engine.Prog) {
 		recv = info.ObjectOf(f.Decl.Recv.List[0].Names[0])
 	}
 	size := paramObj(f, 0)
-	isRecvNilGate := func(b *cfgBlock) bool {
-		if len(b.Nodes) == 0 {
+	// (a) bytes accounting on every exit — directly or through a private helper all of whose exits account
+	isAllocVar := func(o types.Object) bool {
+		v, ok := o.(*types.Var)
+		return ok && engine.TypeName(v.Type()) == "*gnovm/pkg/gnolang.Allocator"
+	}
+	isAdd := func(fn *engine.Fn, n ast.Node) bool {
+		as, ok := n.(*ast.AssignStmt)
+		if !ok || as.Tok != token.ADD_ASSIGN || len(as.Lhs) != 1 {
 			return false
 		}
-		st := f.SiteOf(b.Nodes[len(b.Nodes)-1])
-		if st == nil {
+		sel, ok := ast.Unparen(as.Lhs[0]).(*ast.SelectorExpr)
+		if !ok || sel.Sel.Name != "bytes" || !isAllocVar(engine.ObjOf(fn.Info(), sel.X)) {
 			return false
 		}
-		for _, gt := range g.Gates(st) {
-			if bx, ok := ast.Unparen(gt.Cond).(*ast.BinaryExpr); ok && gt.OnTrue && bx.Op == token.EQL && isNil(bx.Y) && engine.ObjOf(info, bx.X) == recv {
+		o := engine.ObjOf(fn.Info(), as.Rhs[0])
+		return o != nil && gbIsParam(fn, o)
+	}
+	recvNilExit := func(fn *engine.Fn, b *cfgBlock) bool {
+		for _, ft := range gbExitFacts(fn, b) {
+			if x, isNilHolds, ok := gbIsNilCmp(ft); ok && isNilHolds && isAllocVar(engine.ObjOf(fn.Info(), x)) {
 				return true
 			}
 		}
 		return false
 	}
-	// (a) bytes accounting on every exit
-	var adds []*engine.Site
-	engine.InspectBody(f, func(n ast.Node) {
-		as, ok := n.(*ast.AssignStmt)
-		if !ok || as.Tok != token.ADD_ASSIGN || len(as.Lhs) != 1 {
-			return
-		}
-		if sel, ok := ast.Unparen(as.Lhs[0]).(*ast.SelectorExpr); ok && sel.Sel.Name == "bytes" && engine.ObjOf(info, sel.X) == recv && engine.ObjOf(info, as.Rhs[0]) == size {
-			if st := f.SiteOf(as); st != nil {
-				adds = append(adds, st)
-			}
-		}
-	})
-	ex := gbExitWithout(f, adds, isRecvNilGate)
-	c.Check("alloc-charge", f.Name+" bytes += size on every exit", f.Pos(), len(adds) > 0 && ex == nil, "every normal exit (non-nil allocator) must have added size to alloc.bytes; exit near "+gbBlockPos(f, ex))
+	ex, nAdds := gbAllExitsPassDeep(f, 2, isAdd, recvNilExit)
+	c.Check("alloc-charge", f.Name+" bytes += size on every exit", f.Pos(), nAdds > 0 && ex == nil, "every normal exit (non-nil allocator) must have added size to alloc.bytes (directly or in a helper); exit near "+gbBlockPos(f, ex))
 	// (b) gas on every exit, gated only by gasMeter != nil
 	cons := f.CallsTo("tm2/pkg/store/types.(GasMeter).ConsumeGas")
 	okGas, whyGas := len(cons) > 0, "allocation gas charged on every normal exit when a meter is installed"
@@ -450,13 +447,12 @@ func gbC10Alloc(c *engine.Ctx, p *engine.Prog) {
 	avoid := map[*cfgBlock]bool{}
 	for _, s := range cons {
 		avoid[s.Block] = true
-		for _, gt := range g.Gates(s) {
-			bx, isB := ast.Unparen(gt.Cond).(*ast.BinaryExpr)
-			meterNil := isB && gt.OnTrue && bx.Op == token.NEQ && isNil(bx.Y) && engine.MentionsName(bx.X, "gasMeter")
-			recvNil := isB && !gt.OnTrue && bx.Op == token.EQL && isNil(bx.Y) && engine.ObjOf(info, bx.X) == recv
-			if !meterNil && !recvNil {
-				okGas, whyGas = false, "allocation gas additionally depends on `"+engine.ExprString(gt.Cond)+"`"
+		for _, ft := range gbFactsOf(g.Gates(s)) {
+			x, isNilHolds, ok := gbIsNilCmp(ft)
+			if ok && !isNilHolds && (engine.MentionsName(x, "gasMeter") || engine.ObjOf(info, x) == recv) {
+				continue
 			}
+			okGas, whyGas = false, "allocation gas additionally depends on `"+engine.ExprString(ft.E)+"`"
 		}
 		if len(s.Call.Args) == 2 {
 			if call, ok := ast.Unparen(s.Call.Args[0]).(*ast.CallExpr); !ok || gbCalleeName(info, call) != gbG+"allocGas" || len(call.Args) != 1 || engine.ObjOf(info, call.Args[0]) != size {
@@ -480,7 +476,7 @@ func gbC10Alloc(c *engine.Ctx, p *engine.Prog) {
 			av[b] = true
 		}
 		for _, exb := range gbNormalExits(f) {
-			if av[exb] || isRecvNilGate(exb) {
+			if av[exb] || recvNilExit(f, exb) {
 				continue
 			}
 			if g.Reach(g.CFG.Blocks[0], exb, av) {
@@ -489,39 +485,56 @@ func gbC10Alloc(c *engine.Ctx, p *engine.Prog) {
 		}
 	}
 	c.Check("alloc-charge", f.Name+" gas on every exit", f.Pos(), okGas, whyGas)
-	// (c) cap: a panic gated by a comparison with maxBytes on the true branch, using strict `>`
-	nCap := 0
-	for _, s := range f.CallsTo("builtin.panic") {
-		for _, gt := range g.Gates(s) {
-			if bx, ok := ast.Unparen(gt.Cond).(*ast.BinaryExpr); ok && gt.OnTrue && bx.Op == token.GTR && engine.MentionsName(bx.Y, "maxBytes") {
-				nCap++
+	// (c) cap: every accounting of size (direct or in a helper) is either under "sum <= maxBytes"
+	// or followed, in its own function, by a panic under "bytes > maxBytes"
+	capPanics := 0
+	isPanicCall := func(fn *engine.Fn, n ast.Node) bool {
+		call, ok := n.(*ast.CallExpr)
+		return ok && engine.IsBuiltinCall(fn.Info(), call, "panic")
+	}
+	overCap := func(ft gbFact) bool { // "x > maxBytes" holds
+		_, y, op, ok := gbCmp(ft)
+		return ok && op == token.GTR && engine.MentionsName(y, "maxBytes")
+	}
+	underCap := func(ft gbFact) bool { // "maxBytes >= x" holds
+		x, _, op, ok := gbCmp(ft)
+		return ok && op == token.GEQ && engine.MentionsName(x, "maxBytes")
+	}
+	for _, ds := range f.DeepFind(2, isPanicCall) {
+		for _, ft := range gbFactsOf(ds.DeepGates()) {
+			if overCap(ft) {
+				capPanics++
 				break
 			}
 		}
 	}
-	c.Check("alloc-charge", f.Name+" hard cap", f.Pos(), nCap >= 2, "allocations that would exceed maxBytes must panic (before and after GC)")
-	// the non-GC path adds bytes only on the !(bytes+size > maxBytes) branch
-	for i, a := range adds {
+	c.Check("alloc-charge", f.Name+" hard cap", f.Pos(), capPanics >= 1, "allocations that would exceed maxBytes must panic")
+	nA := 0
+	for _, ds := range f.DeepFind(2, isAdd) {
+		nA++
 		ok := false
-		for _, gt := range g.Gates(a) {
-			if bx, isB := ast.Unparen(gt.Cond).(*ast.BinaryExpr); isB && bx.Op == token.GTR && engine.MentionsName(bx.Y, "maxBytes") {
+		for _, ft := range gbFactsOf(ds.DeepGates()) {
+			if underCap(ft) {
 				ok = true
 			}
 		}
-		// or followed by a cap test that panics
 		if !ok {
-			for _, s := range f.CallsTo("builtin.panic") {
-				if g.ReachableAfter(a, s) {
-					for _, gt := range g.Gates(s) {
-						if bx, isB := ast.Unparen(gt.Cond).(*ast.BinaryExpr); isB && gt.OnTrue && bx.Op == token.GTR && engine.MentionsName(bx.Y, "maxBytes") && engine.MentionsName(bx.X, "bytes") && g.BlockDominates(a.Block, gt.Block) {
-							ok = true
-						}
+			h := ds.Inner.Fn
+			hg := h.Graph()
+			for _, s := range h.CallsTo("builtin.panic") {
+				if !hg.Dominates(ds.Inner, s) {
+					continue
+				}
+				for _, ft := range gbFactsOf(hg.Gates(s)) {
+					if x, _, _, isCmp := gbCmp(ft); isCmp && overCap(ft) && engine.MentionsName(x, "bytes") {
+						ok = true
 					}
 				}
 			}
 		}
-		c.Check("alloc-charge", f.Name+" bytes += size #"+strconv.Itoa(i+1)+" is capped", a.Pos(), ok, "each accounting of size must be under (or followed by) the maxBytes test")
+		c.Check("alloc-charge", f.Name+" bytes += size #"+strconv.Itoa(nA)+" is capped", ds.Inner.Pos(), ok, "each accounting of size must be under (or followed by) the maxBytes test")
 	}
+	c.Floor("alloc-charge accounting sites", nA, 1)
 }
 
 // ---------- (3) meter ----------
@@ -532,40 +545,61 @@ func gbC10Meter(c *engine.Ctx, p *engine.Prog) {
 		g := f.Graph()
 		info := f.Info()
 		amount := paramObj(f, 0)
-		// negative amounts panic
+		// facts holding at each panic (polarity-aware; follows IsPastLimit())
+		recvObj := types.Object(nil)
+		if f.Decl.Recv != nil && len(f.Decl.Recv.List) == 1 && len(f.Decl.Recv.List[0].Names) == 1 {
+			recvObj = info.ObjectOf(f.Decl.Recv.List[0].Names[0])
+		}
+		isRecvField := func(e ast.Expr, name string) bool {
+			sel, ok := ast.Unparen(e).(*ast.SelectorExpr)
+			return ok && sel.Sel.Name == name && engine.ObjOf(info, sel.X) == recvObj
+		}
+		// the store `g.consumed = v`
+		var store *engine.Site
+		var stored types.Object
+		engine.InspectBody(f, func(n ast.Node) {
+			if as, isA := n.(*ast.AssignStmt); isA && as.Tok == token.ASSIGN && len(as.Lhs) == 1 && len(as.Rhs) == 1 && isRecvField(as.Lhs[0], "consumed") {
+				store = f.SiteOf(as)
+				stored = engine.ObjOf(info, as.Rhs[0])
+			}
+		})
 		okNeg := false
 		var limitPanic *engine.Site
-		okLimit, whyLimit := false, "no panic(OutOfGasError) gated solely by `consumed > g.limit`"
+		var limitCond *cfgBlock
+		okLimit, whyLimit := false, "no panic(OutOfGasError) gated solely by `consumed > limit`"
 		for _, s := range f.CallsTo("builtin.panic") {
 			gates := g.Gates(s)
 			for _, gt := range gates {
-				bx, ok := ast.Unparen(gt.Cond).(*ast.BinaryExpr)
-				if !ok || !gt.OnTrue {
-					continue
+				var fs []gbFact
+				gbSplitFact(gt.Cond, gt.OnTrue, &fs)
+				if len(fs) != 1 {
+					continue // combined with another condition
 				}
-				if bx.Op == token.LSS && engine.ObjOf(info, bx.X) == amount {
-					if v, isC := gbConstInt(info, bx.Y); isC && v == 0 && len(gates) == 1 {
+				ft := fs[0]
+				// amount < 0 holds
+				if x, y, op, ok := gbCmp(ft); ok && op == token.GTR {
+					// normalised: x > y ; amount < 0 reads 0 > amount
+					if v, isC := gbConstInt(info, x); isC && v == 0 && engine.ObjOf(info, y) == amount && len(gates) == 1 {
 						okNeg = true
 					}
+					// v > g.limit
+					if isRecvField(y, "limit") && len(s.Call.Args) == 1 && strings.Contains(engine.TypeName(info.TypeOf(s.Call.Args[0])), "OutOfGasError") {
+						isStoredVar := stored != nil && engine.ObjOf(info, x) == stored
+						isField := isRecvField(x, "consumed") && store != nil && g.Dominates(store, s)
+						if isStoredVar || isField {
+							limitPanic, limitCond, okLimit = s, gt.Block, true
+						} else {
+							whyLimit = "the value compared with the limit is not the value stored as consumed"
+						}
+					}
 				}
-				if bx.Op == token.GTR {
-					if sel, isSel := ast.Unparen(bx.Y).(*ast.SelectorExpr); isSel && sel.Sel.Name == "limit" {
-						if _, isId := ast.Unparen(bx.X).(*ast.Ident); isId && strings.Contains(engine.TypeName(info.TypeOf(s.Call.Args[0])), "OutOfGasError") {
-							limitPanic = s
-							okLimit = true
-							// the compared value must be what is stored into g.consumed
-							cmp := engine.ObjOf(info, bx.X)
-							stored := false
-							engine.InspectBody(f, func(n ast.Node) {
-								if as, isA := n.(*ast.AssignStmt); isA && len(as.Lhs) == 1 && len(as.Rhs) == 1 {
-									if sl, isS := ast.Unparen(as.Lhs[0]).(*ast.SelectorExpr); isS && sl.Sel.Name == "consumed" && engine.ObjOf(info, as.Rhs[0]) == cmp {
-										stored = true
-									}
-								}
-							})
-							if !stored {
-								okLimit, whyLimit = false, "the value compared with the limit is not the value stored as consumed"
-							}
+				// g.IsPastLimit() holds, after the new total was stored
+				if call, ok := gbFactCall(ft); ok && ft.Pos && gbCalleeName(info, call) == T+"(*basicGasMeter).IsPastLimit" && len(s.Call.Args) == 1 && strings.Contains(engine.TypeName(info.TypeOf(s.Call.Args[0])), "OutOfGasError") {
+					if sel, isSel := ast.Unparen(call.Fun).(*ast.SelectorExpr); isSel && engine.ObjOf(info, sel.X) == recvObj {
+						if store != nil && g.Dominates(store, s) {
+							limitPanic, limitCond, okLimit = s, gt.Block, true // IsPastLimit itself is decided below (consumed > limit)
+						} else {
+							whyLimit = "IsPastLimit() is consulted before the new total is stored"
 						}
 					}
 				}
@@ -575,34 +609,25 @@ func gbC10Meter(c *engine.Ctx, p *engine.Prog) {
 		c.Check("meter-limit", f.Name, f.Pos(), okLimit, whyLimit)
 		// the limit test is reached on every normal path: every normal exit passes the block of the comparison
 		if limitPanic != nil {
-			var cond *cfgBlock
-			for _, gt := range g.Gates(limitPanic) {
-				if bx, ok := ast.Unparen(gt.Cond).(*ast.BinaryExpr); ok && bx.Op == token.GTR {
-					cond = gt.Block
-				}
-			}
-			ok := cond != nil
+			ok := limitCond != nil
 			if ok {
-				av := map[*cfgBlock]bool{cond: true}
+				av := map[*cfgBlock]bool{limitCond: true}
 				for _, ex := range gbNormalExits(f) {
-					if ex != cond && g.Reach(g.CFG.Blocks[0], ex, av) {
+					if ex != limitCond && g.Reach(g.CFG.Blocks[0], ex, av) {
 						ok = false
 					}
 				}
 			}
 			c.Check("meter-limit", f.Name+" limit test on every exit", f.Pos(), ok, "no normal exit may skip the consumed > limit test")
 		}
-		// overflow-checked sum
+		// overflow-checked sum: the stored value comes from overflow.Add whose ok result, when false, panics
 		okAdd := false
 		for _, s := range f.CallsTo("tm2/pkg/overflow.Add") {
-			r := g.CheckedGuard(s, limitPanicOr(f, limitPanic))
-			_ = r
 			vs := gbAssignedVars(f, s)
-			if len(vs) == 2 && vs[1] != nil {
-				// !ok panics
+			if len(vs) == 2 && vs[1] != nil && vs[0] != nil && vs[0] == stored {
 				for _, ps := range f.CallsTo("builtin.panic") {
-					for _, gt := range g.Gates(ps) {
-						if u, isU := ast.Unparen(gt.Cond).(*ast.UnaryExpr); isU && u.Op == token.NOT && gt.OnTrue && engine.ObjOf(info, u.X) == vs[1] {
+					for _, ft := range gbFactsOf(g.Gates(ps)) {
+						if id, isId := ast.Unparen(ft.E).(*ast.Ident); isId && !ft.Pos && info.ObjectOf(id) == vs[1] {
 							okAdd = true
 						}
 					}
@@ -936,26 +961,42 @@ func gbC10RunTx(c *engine.Ctx, p *engine.Prog) {
 	c.Floor("block-gas work sites", len(work), 2)
 	for _, w := range work {
 		ok, why := false, "no `mode == RunTxModeDeliver && BlockGasMeter().IsOutOfGas()` refusal gates this call"
+		d := gbCollectDefs(f)
+		isDeliverTest := func(e ast.Expr) bool {
+			e = d.resolveLocal(e)
+			bx, isB := ast.Unparen(e).(*ast.BinaryExpr)
+			if !isB || bx.Op != token.EQL {
+				return false
+			}
+			for _, side := range []ast.Expr{bx.X, bx.Y} {
+				if id, isId := ast.Unparen(side).(*ast.Ident); isId && id.Name == "RunTxModeDeliver" {
+					return true
+				}
+			}
+			return false
+		}
+		isBlockOOG := func(e ast.Expr) bool {
+			e = d.resolveLocal(e)
+			call, isC := ast.Unparen(e).(*ast.CallExpr)
+			return isC && strings.HasSuffix(gbCalleeName(info, call), ".IsOutOfGas") && engine.MentionsName(call, "BlockGasMeter")
+		}
 		for _, gt := range g.Gates(w) {
+			// the refusing side of the gate: conjunction (target on the false side) of nothing but the
+			// deliver-mode test and the block-meter test; or, with nested ifs, the block-meter test alone
 			if gt.OnTrue {
 				continue
 			}
-			cj := engine.Conjuncts(gt.Cond, token.LAND)
-			if len(cj) != 2 {
-				continue
-			}
-			modeOK, oog := false, false
-			for _, a := range cj {
-				if bx, isB := ast.Unparen(a).(*ast.BinaryExpr); isB && bx.Op == token.EQL {
-					if id, isId := ast.Unparen(bx.Y).(*ast.Ident); isId && id.Name == "RunTxModeDeliver" {
-						modeOK = true
-					}
-				}
-				if call, isC := ast.Unparen(a).(*ast.CallExpr); isC && strings.HasSuffix(gbCalleeName(info, call), ".IsOutOfGas") && engine.MentionsName(call, "BlockGasMeter") {
-					oog = true
+			hasOOG, other := false, false
+			for _, a := range engine.Conjuncts(gt.Cond, token.LAND) {
+				switch {
+				case isBlockOOG(a):
+					hasOOG = true
+				case isDeliverTest(a):
+				default:
+					other = true
 				}
 			}
-			if modeOK && oog {
+			if hasOOG && !other {
 				ok, why = true, "refused when the block gas meter is exhausted"
 			}
 		}
